@@ -976,6 +976,7 @@ namespace Givaro {
 #endif
 
             Pdom.assign(H, G);
+            Pdom.modin(H, F);   // give_random_prim_root returns a generator of the degree of F
 
             typedef Poly1PadicDom< Self_t, Dense > PadicDom;
             PadicDom PAD(Pdom);
